@@ -521,7 +521,7 @@ def check_words(chk, maxword):
         for i, api in enumerate(("get_context(a)", "get_context(b)", "Any.decode")):
             e, g = v["exp"][i], v["got"][i]
             if e != g:
-                chk.violation("ContextIffBalanced" if g not in (2, 98) else "OnlyInvalidTag",
+                chk.violation("OnlyInvalidTag" if g == (2 if i < 2 else 98) else "ContextIffBalanced",
                               {"api": api.split("(")[0], "expected": code_name(e), "got": code_name(g)},
                               {"word": word_text(v["w"]), "ctx_a": CTXA, "ctx_b": CTXB, "api": api, "expected_code": e, "got_code": g},
                               {"kind": "word", "word": list(v["w"])})
@@ -710,7 +710,7 @@ def validate_records(chk, recs, meta, label):
         with open(tf, "w") as f:
             for r in recs:
                 f.write(json.dumps(r, separators=(",", ":")) + "\n")
-        res = tlc.run_tlc("MC_Tags", cfg_text=cfg("InitRec", ["ImplRec"]), env={"TRACE_FILE": tf, "JAVA_TOOL_OPTIONS": "-Xss32m"},
+        res = tlc.run_tlc("MC_Tags", cfg_text=cfg("InitRec", ["ImplRec"]), env={"TRACE_FILE": tf, "JDK_JAVA_OPTIONS": "-Xss256m"},
                           timeout=1800, name="Tags/records:" + label)
     finally:
         shutil.rmtree(wd, ignore_errors=True)
